@@ -118,9 +118,9 @@ def run_history(job):
             elif k == "write":
                 tb.write(op["r"] - 1, op["c"] - 1, VALS[op["v"]])
             elif k == "addrow":
-                tb.add_row(op["n"], None if op["at"] == tb.num_rows + 1 else op["at"] - 1)
+                tb.add_row(op["n"], None if op["at"] == tb.num_rows + 1 else op["at"] - 1, VALS[op["d"]])
             elif k == "addcol":
-                tb.add_column(op["n"], None if op["at"] == tb.num_cols + 1 else op["at"] - 1)
+                tb.add_column(op["n"], None if op["at"] == tb.num_cols + 1 else op["at"] - 1, VALS[op["d"]])
             elif k == "delrow":
                 tb.delete_row(op["n"], op["at"] - 1)
             elif k == "delcol":
@@ -250,7 +250,7 @@ def run(ctx):
                 # only edits that do not cut a rectangle (before the first / after the last one)
                 top = min(y[0] for y in used)
                 if cnr == nr and cnc == nc:
-                    ops.append({"op": "addrow", "n": 1, "at": rng.choice([a for a in range(1, nr + 2) if a <= top or a > max(y[2] for y in used)])})
+                    ops.append({"op": "addrow", "n": 1, "d": rng.choice(["e", "c"]), "at": rng.choice([a for a in range(1, nr + 2) if a <= top or a > max(y[2] for y in used)])})
                     cnr += 1
                     break
             elif k < 0.7:
